@@ -63,6 +63,11 @@ type connState struct {
 	// peer is not reading); entered is signalled when a Write starts waiting
 	gate    chan struct{}
 	entered chan struct{}
+	// every deadline call the session makes on the connection, and the write deadline in force
+	// (the gated Write honours it the way a real transport does)
+	dl   []dlCall
+	wd   time.Time
+	wdCh chan struct{}
 }
 
 func (cs *connState) setGate(g chan struct{}) {
@@ -88,7 +93,9 @@ func (c conn) Write(p []byte) (int, error) {
 	c.st.mu.Unlock()
 	if gate != nil {
 		entered <- struct{}{}
-		<-gate
+		if err := c.st.waitGate(gate); err != nil {
+			return 0, err
+		}
 	}
 	c.st.mu.Lock()
 	i := c.st.n
@@ -216,7 +223,10 @@ func classifyTx(err error) string {
 var txNames = map[string]string{"t1": "Send", "t2": "Encode", "t3": "EncodeElement", "t4": "SendIQ", "t5": "TokenWriter", "t6": "SendElement"}
 
 func (t *tsess) tx(op string, n int) (res string) {
-	ctx := context.Background()
+	return t.txCtx(context.Background(), op, n)
+}
+
+func (t *tsess) txCtx(ctx context.Context, op string, n int) (res string) {
 	id := fmt.Sprintf("x%d", n)
 	var err error
 	p := ""
@@ -347,8 +357,8 @@ func (c *ctxT) hist(serve bool, ops []string, class string) {
 		}
 	}
 	var res []string
-	closedKnown := false  // a Close has returned or Serve has returned
-	errExpected := false  // Serve ended by sending a stream error of its own while the output was still open
+	closedKnown := false // a Close has returned or Serve has returned
+	errExpected := false // Serve ended by sending a stream error of its own while the output was still open
 	termEvent := ""
 	lastDeadline := ""
 	deadlineAtTerm := ""
@@ -818,6 +828,9 @@ func Run(r *common.Run) error {
 			if len(f) == 2 && f[0] == "C10" && f[1] == "closeblock" {
 				c.closeBlocked()
 			}
+			if len(f) == 5 && f[0] == "C10" && f[1] == "abandon" {
+				c.abandon(f[2], f[3], f[4] == "1")
+			}
 			if len(f) == 4 && f[0] == "C10" && f[1] == "whist" {
 				fa := -1
 				if f[2] != "-" {
@@ -841,6 +854,9 @@ func Run(r *common.Run) error {
 		for i := 0; i < 5; i++ {
 			c.deadlineStorm()
 			c.closeBlocked()
+			for _, kind := range abandonKinds {
+				c.abandon(abandonOps[i%len(abandonOps)], kind, false)
+			}
 		}
 		for _, h := range [][]string{{"d"}, {"m", "df", "m", "dp"}, {"df", "c", "p"}, {"y", "dz", "y"}, {"m", "d"}, {"c", "dp"}} {
 			for i := 0; i < 10; i++ {
@@ -851,6 +867,16 @@ func Run(r *common.Run) error {
 	}
 	r.Mark("case close-blocked")
 	c.closeBlocked()
+	r.Mark("case abandoned transmit calls")
+	for i, op := range abandonOps {
+		for k, kind := range abandonKinds {
+			c.abandon(op, kind, false)
+			// waiting for a real close deadline: a few combinations (all in the thorough tier)
+			if r.Pick(0, 1) == 1 || (i+k)%4 == 0 && kind != "alive" {
+				c.abandon(op, kind, true)
+			}
+		}
+	}
 	r.Mark("case corpus")
 	for _, h := range [][]string{
 		{"c", "t1"}, {"c", "t2"}, {"c", "t3"}, {"c", "t4"}, {"c", "t5"}, {"c", "t6"}, {"c", "c"},
